@@ -56,6 +56,39 @@ theorem scan_clean (l : List Out) : tailClean (scan false l) = true := by
     | indent => simpa [scan, tailClean] using ih
     | space => simpa [scan, tailClean] using ih
     | comment k t => simp [scan, tailClean]
+theorem scan_true (l : List Out) : scan true l = l := by
+  induction l with
+  | nil => rfl
+  | cons x r ih => cases x <;> simp [scan, ih]
+
+theorem head_scan (stop : Bool) (r : List Out) (h : headIsComment r = true) : headIsComment (scan stop r) = true := by
+  cases r with
+  | nil => simp [headIsComment] at h
+  | cons y ys => cases y <;> simp [headIsComment] at h <;> simp [scan, headIsComment]
+
+theorem scan_idem (l : List Out) : ∀ stop, scan stop (scan stop l) = scan stop l := by
+  induction l with
+  | nil => intro _; rfl
+  | cons x r ih =>
+    intro stop
+    cases x with
+    | newline =>
+      by_cases hc : (!stop && !headIsComment r) = true
+      · have : scan stop (Out.newline :: r) = scan stop r := by simp [scan, hc]
+        rw [this, ih]
+      · have hk : scan stop (Out.newline :: r) = Out.newline :: scan stop r := by simp [scan, hc]
+        rw [hk]
+        have hc2 : (!stop && !headIsComment (scan stop r)) = false := by
+          cases stop with
+          | true => simp
+          | false =>
+            have hh : headIsComment r = true := by
+              cases h' : headIsComment r <;> simp_all
+            simp [head_scan false r hh]
+        simp only [scan, hc2, Bool.false_eq_true, if_false, ih]
+    | indent => simp [scan, ih]
+    | space => simp [scan, ih]
+    | comment k t => simp [scan, scan_true]
 end StyluaModel.EndTokenLemmas
 
 namespace StyluaModel.LineSafe
